@@ -387,5 +387,17 @@ theorem encodeIntLen_diverges (v : Nat) (hv : 2 ^ 63 + UB8 ≤ v) : encodeIntLen
   simp only [UB8_eq] at hv
   rw [if_pos (by omega), if_pos (by omega), if_pos (by omega), if_pos (by omega), if_pos (by omega), if_pos (by omega), if_pos (by omega), if_pos (by omega), if_pos (by omega)]
 
+/-- the `debug_assert!`s of `encode_int` follow from the branch conditions -/
+theorem encodeInt_asserts (v : Nat) :
+    (UB1 ≤ v → v < UB2 → (v - UB1) >>> 8 < 1 <<< 6) ∧
+    (UB2 ≤ v → v < UB3 → (v - UB2) >>> 16 < 1 <<< 5) ∧
+    (UB3 ≤ v → v < UB4 → (v - UB3) >>> 24 < 1 <<< 4) ∧
+    (UB4 ≤ v → v < UB5 → (v - UB4) >>> 32 < 1 <<< 3) ∧
+    (UB5 ≤ v → v < UB6 → (v - UB5) >>> 40 < 1 <<< 2) ∧
+    (UB6 ≤ v → v < UB7 → (v - UB6) >>> 48 < 1 <<< 1) := by
+  simp only [UB1_eq, UB2_eq, UB3_eq, UB4_eq, UB5_eq, UB6_eq, UB7_eq, Nat.shiftRight_eq_div_pow,
+    Nat.reduceShiftLeft, Nat.reducePow]
+  refine ⟨?_, ?_, ?_, ?_, ?_, ?_⟩ <;> intro h1 h2 <;> omega
+
 
 end Sux.RCL
